@@ -220,6 +220,17 @@ def _run(ctx):
         ctx.inst("C20.R3", "stale/" + crate, len(good) == 1 and "Lt" in pv.ops, "%s account is stale iff %s < current %s" % (crate.split("_")[0], lhs_field, "slot" if lhs_field != "last_interest_ts" else "timestamp"),
                  [(c[0], A._pvs(c[1]), A._pvs(c[2])) for c in cm], f.loc(f.raw["span"]))
 
+    # the oracle constructor hands each venue predicate the clock quantity it is defined on
+    for f in ctor:
+        want = {"kamino_mocks": "p3.slot", "drift_mocks": "p3.unix_timestamp"}
+        seen = {}
+        for c in f.calls():
+            if c.callee and c.callee["name"] == "is_stale" and c.callee["crate"] in want and len(c.args) == 2:
+                seen.setdefault(c.callee["crate"], []).append((expr_tree(prog, f, c.args[1]), c.loc))
+        for crate, w in want.items():
+            got = seen.get(crate, [])
+            ctx.inst("C20.R3", "stale-argument/" + crate, len(got) >= 2 and all(t == w for t, _ in got),
+                     "every %s staleness test in the oracle constructor is given clock.%s" % (crate.split("_")[0], w.split(".")[1]), sorted({t for t, _ in got}), got[0][1] if got else f.loc(f.raw["span"]))
     # ------------------------------------------------------------ R4 zero-supply and formulas
     for nm, zero_param, num_param, den_param in (("collateral_to_liquidity_from_scaled", 3, 2, 3), ("liquidity_to_collateral_from_scaled", 2, 3, 2)):
         fs = [f for f in fset.values() if f.name == nm and f.info["crate"] == "marginfi_type_crate"]
